@@ -1,6 +1,7 @@
 (* Line-oriented entry point of the executable model: run "cmd sexp" = answer line. *)
 From Coq Require Import String Ascii List Bool Arith NArith ZArith.
 From Wrap Require Import Base.Str Base.ListX Syntax.Ast Syntax.Sexp Syntax.Codec Syntax.Print Inst.Model Inst.Proj Pybind.Items Pybind.Gen Pybind.Render Matlab.Ids Matlab.Arity Matlab.Files Xml.Escape Xml.Doc Runtime.Mx Runtime.Gateway.
+From Wrap Require Parse.Peg Parse.Build gen.Grammar.
 Import ListNotations.
 Open Scope string_scope.
 
@@ -349,6 +350,23 @@ Definition run_gateway (x : sexp) : string :=
   | _ => "badshape"
   end.
 
+(* ---- C01 / C07 / C12 ---- *)
+(* parse "text" -> ok (decl...) | err <exception class> | unsupported *)
+Definition run_parse (x : sexp) : string :=
+  match x with
+  | Atom text => show_res (fun ds => SList (map e_decl ds)) (Build.parse_module Grammar.grammar text)
+  | _ => "badshape"
+  end.
+(* default "text" -> the slice DEFAULT_ARG takes from the start of text, and what is left *)
+Definition run_default (x : sexp) : string :=
+  match x with
+  | Atom text => match Peg.default_arg (Peg.expandtabs (Peg.chars_of text)) with
+                 | Some (t, r) => "ok " ++ print (SList [Atom (Peg.string_of t); Atom (Peg.string_of r)])
+                 | None => "err none"
+                 end
+  | _ => "badshape"
+  end.
+
 Definition run (line : string) : string :=
   let '(cmd, rest) := split_cmd line EmptyString in
   match read rest with
@@ -366,6 +384,8 @@ Definition run (line : string) : string :=
     else if String.eqb cmd "literal" then run_literal x
     else if String.eqb cmd "mx" then run_mx x
     else if String.eqb cmd "gateway" then run_gateway x
+    else if String.eqb cmd "parse" then run_parse x
+    else if String.eqb cmd "default" then run_default x
     else if String.eqb cmd "echo" then print x
     else "badcmd"
   end.
